@@ -122,7 +122,7 @@ Proof.
   { rewrite forallb_forall in *. intros x Hx. eapply elem_ok_leaf; eauto. }
   assert (int_src_ok TG (EPrim k) (PList l) = true) as ->.
   { unfold int_src_ok. destruct (t_arr_precheck TG) eqn:P; [|reflexivity]. cbn [negb orb].
-    destruct (np_flat_leaves l Hleaf) as [sh ->]. cbn [snd]. specialize (Hs (or_intror P)).
+    destruct (np_flat_leaves l Hleaf) as [sh ->]. cbn [snd]. specialize (Hs (or_intror P)). apply orb_true_iff. right.
     rewrite forallb_forall in *. intros x Hx. apply elem_ok_int_leaf. auto. }
   unfold np_array. rewrite forallb_forall in Ho.
   destruct (np_flat_leaves l) as [sh ->].
